@@ -94,7 +94,16 @@ pub fn violation(property: &str, oracle: &str, signature: &str, detail: &str) ->
     child_finish(&rep)
 }
 
+#[cfg(vcheck_cov)]
+extern "C" {
+    fn __llvm_profile_write_file() -> i32;
+}
+
 pub fn child_finish(rep: &Report) -> ! {
+    #[cfg(vcheck_cov)]
+    unsafe {
+        __llvm_profile_write_file();
+    }
     let fd = CHILD_FD.load(Ordering::SeqCst);
     let s = serde_json::to_vec(rep).unwrap();
     if fd >= 0 {
